@@ -367,6 +367,12 @@ fn run_history(h: &History, which: Which, acc: &mut Acc) -> Result<Facts, Fail> 
                         if let Some(c) = o.2 {
                             if c != m.count {
                                 let (sig, prop) = match op {
+                                    // both statements cover this one: C14 "clears its
+                                    // unacknowledged count", C15 "count ... since its last
+                                    // acknowledgement or registration"
+                                    Op::Register { .. } if which == Which::C15 => {
+                                        ("c15-count-not-reset-by-registration", "C15")
+                                    }
                                     Op::Register { .. } => ("c14-count-not-cleared", "C14"),
                                     Op::Deregister { .. } => ("c14-count-touched", "C14"),
                                     Op::Changed { path, .. } if *path != pi => ("c14-other-resource-touched", "C14"),
